@@ -206,6 +206,11 @@ class Verifier(Executor):
                 names.add(gc[sub.func.id])
         return names, objs
 
+    def ghost_updates(self, st, lc):
+        """ghost assignments performed at the end of every completed iteration (witnesses of existential invariants)"""
+        for gname, gexpr in (lc.get("ghost_updates") or {}).items():
+            st.env[gname] = self.eval_spec(gexpr, st, {})
+
     def also_modifies(self, lc, st, names, objs):
         for nm in lc.get("also_modifies", []):
             v = st.env.get(nm)
@@ -285,6 +290,22 @@ class Verifier(Executor):
                 raise VerifError(f"hint is not a lemma instance: {h}")
             st.assume(self.eval_spec(node, st, extra_env))
 
+    def apply_cuts(self, s, lc, env, line):
+        """hints (lemma instances) then cuts: intermediate facts proved from the hints and kept; with scoped_hints the lemma instances
+        themselves are dropped afterwards (smaller, more stable queries for the body)"""
+        cuts = lc.get("cuts") or []
+        if cuts and lc.get("scoped_hints"):
+            h = s.fork()
+            self.apply_hints(h, lc.get("hints"), env)
+            for lbl, clause in cuts:
+                g = self.eval_spec(clause, h, env)
+                self.oblige(h, "assert", lbl, g, tags=self.tags_for(lbl), line=line)
+                s.assume(self.eval_spec(clause, s, env))
+            return
+        self.apply_hints(s, lc.get("hints"), env)
+        for lbl, clause in cuts:
+            self.oblige(s, "assert", lbl, self.eval_spec(clause, s, env), tags=self.tags_for(lbl), line=line)
+
     def tags_for(self, label):
         tags = set(self.cur_tags)
         if self.cur_contract:
@@ -318,9 +339,10 @@ class Verifier(Executor):
                 continue
             bind(s, k)
             s.pre_stack = s.pre_stack + [("it0", s.snapshot())]
-            self.apply_hints(s, lc.get("hints"), {idx: k, **genv})
+            self.apply_cuts(s, lc, {idx: k, **genv}, line)
             for s2, out in self.exec_block(node.body, s):
                 if out[0] in ("next", "continue"):
+                    self.ghost_updates(s2, lc)
                     self.apply_hints(s2, lc.get("step_hints"), {idx: k, **genv})
                     self.check_invariants(s2, lc, "inv-step", {idx: k + 1, **genv}, line)
                 elif out[0] == "break":
@@ -406,6 +428,7 @@ class Verifier(Executor):
                 self.apply_hints(s1, lc.get("hints"), {})
                 for s2, out in self.exec_block(node.body, s1):
                     if out[0] in ("next", "continue"):
+                        self.ghost_updates(s2, lc)
                         self.apply_hints(s2, lc.get("step_hints"), {})
                         self.check_invariants(s2, lc, "inv-step", {}, line)
                         for lbl, clause in lc.get("step_ensures", []):
@@ -566,7 +589,7 @@ class Verifier(Executor):
         for label, clause, tags in con.clauses("requires"):
             st.pc.append(zbool(truth(self.eval_spec(clause, st, {}))))
         for d in con.extra.get("defs", []):
-            if "ufun_" not in d and "tv(" not in d:
+            if "ufun_" not in d and "tv(" not in d and "sol()" not in d:
                 raise VerifError("defs may only define uninterpreted specification functions")
             st.pc.append(zbool(truth(self.eval_spec(d, st, {}))))
         if not self.prover.feasible(self.axioms + st.pc, timeout_ms=10000):
@@ -574,7 +597,9 @@ class Verifier(Executor):
         for gname in set(con.extra.get("ghost_calls", {}).values()):
             st.env[gname] = 0
         for gname, gval in con.extra.get("ghost_init", {}).items():
-            if gval == "emptylist":
+            if isinstance(gval, str) and gval.startswith("@"):
+                gval = st.ghost_env[gval[1:]]
+            if isinstance(gval, str) and gval == "emptylist":
                 lo_ = ListObj(gname)
                 st.heap[lo_.id] = (0, z3.K(INT, z3.IntVal(0)))
                 gval = lo_
